@@ -43,6 +43,13 @@ type Atom struct {
 	FI        *prove.FuncInfo // decoder: the frame OffForm/WidthForm are expressed in
 	Unrolled  bool            // decoder: one row of a constant-table loop, already unrolled
 	Cond     bool   // executed under a data-dependent condition
+
+	// encoder: a single byte that is lane #Lane (0 = least significant) of the
+	// integer LaneOf, SrcBytes wide (byte(x>>8k), byte(x&0xFF), byte(x)); runs of
+	// lanes of one value are merged into one fixed atom by mergeLanes
+	LaneOf   ssa.Value
+	Lane     int
+	SrcBytes int
 }
 
 func (a Atom) String() string {
@@ -105,6 +112,9 @@ func Render(as []Atom) string {
 
 // Ext holds the shared state for extracting layouts from one function.
 type Ext struct {
+	inlineDepth int // same-receiver methods read in place (bounded)
+	parent      *Ext // caller's extractor when this one reads an inlined plain function
+	bind        map[*ssa.Parameter]ssa.Value // its parameters → the caller's arguments
 	W    *prove.World
 	Fn   *ssa.Function
 	FI   *prove.FuncInfo
@@ -232,6 +242,9 @@ func (e *Ext) ValueSrc(v ssa.Value) (field, expr string, ftype types.Type) {
 			}
 		}
 	case *ssa.Parameter:
+		if a, ok := e.bind[x]; ok && e.parent != nil {
+			return e.parent.ValueSrc(a)
+		}
 		return "", "param " + x.Name(), x.Type()
 	case *ssa.Index:
 		// element of an array value loaded from a field (range over an array field)
